@@ -827,7 +827,10 @@ pub fn build_m(rt: &Runtime, scratch: &mut Scratch, tiles: &TileMap, ch: &MbChoi
 	let mut r = Rng(seed);
 	let rows = tiles_to_rows(tiles);
 	let path = scratch.fresh(".mbtiles");
-	encode_mbtiles(&path, &rows, ch, &mut r).unwrap();
+	// schema freedoms (derived from the seed so that a rebuild while shrinking uses the same schema)
+	let mut r2 = Rng(seed ^ 0x6d62_5f73_6368);
+	let schema = MbSchema { without_rowid: r2.chance(1, 3), extra_columns: r2.chance(1, 3), other_spelling: r2.chance(1, 4) };
+	encode_mbtiles_schema(&path, &rows, ch, &schema, &mut r).unwrap();
 	let qs = queries(tiles, seed, 31);
 	let sc = selfcheck(decode_mbtiles(&path), Some(ch.fmt), Some(mb_comp(ch.fmt)), tiles);
 	let res = run_m(rt, &path, &qs);
@@ -850,6 +853,15 @@ pub fn build_m(rt: &Runtime, scratch: &mut Scratch, tiles: &TileMap, ch: &MbChoi
 	}
 	if ch.shuffle_rows {
 		fr.push("shuffled_rows");
+	}
+	if schema.without_rowid {
+		fr.push("without_rowid");
+	}
+	if schema.extra_columns {
+		fr.push("extra_columns");
+	}
+	if schema.other_spelling {
+		fr.push("other_column_order_and_type_spelling");
 	}
 	Built { line: mb_line(ch.fmt, &rows, &qs), res, intent, qs, freedoms: fr, selfcheck: sc }
 }
